@@ -128,7 +128,7 @@ fn o5_1_rect_sound() {
     rect_soundness(6, false);
 }
 
-//@ harness: o5_1_rect_sound_anyorder props=C05,C03 tier=thorough obl=O5.1 timeout=3400 mem=24
+//@ harness: o5_1_rect_sound_anyorder props=C05,C03 tier=stretch obl=O5.1 timeout=3400 mem=24
 //@ desc: as o5_1_rect_sound with the four lines in any of the 24 slice orders, coordinates 0..8
 //@ encodes: endorse::endorse_rect, endorse::is_rect, endorse::parallel_aabb_group
 #[kani::proof]
@@ -140,7 +140,7 @@ fn o5_1_rect_sound_anyorder() {
     rect_soundness(8, true);
 }
 
-//@ harness: o5_1_rect_needs_2h2v props=C05 tier=thorough obl=O5.1 timeout=3400 mem=24
+//@ harness: o5_1_rect_needs_2h2v props=C05 tier=stretch obl=O5.1 timeout=3400 mem=24
 //@ desc: four lattice lines each of symbolic orientation (horizontal or vertical), coordinates 0..5: when the mix is not 2 horizontal + 2 vertical, endorse_rect is None
 //@ encodes: endorse::endorse_rect, endorse::is_rect, endorse::parallel_aabb_group
 #[kani::proof]
@@ -275,7 +275,7 @@ fn any_fragment() -> Fragment {
     }
 }
 
-//@ harness: o1_5_endorse_total_4 props=C01,C05 tier=thorough obl=O1.5 timeout=3400 mem=24
+//@ harness: o1_5_endorse_total_4 props=C01,C05 tier=stretch obl=O1.5 timeout=3400 mem=24
 //@ desc: endorse_rect and endorse_rounded_rect never panic (as_line().expect / as_arc().expect / arc_radius.expect unreachable) for ANY 4 fragments whose variants are symbolic among Line, Arc, Circle, Rect, MarkerLine with lattice payloads 0..6; powf stubbed by exact square
 //@ encodes: endorse::endorse_rect, endorse::endorse_rounded_rect, endorse::is_rect, endorse::is_rounded_rect, endorse::right_angle_arcs, endorse::parallel_aabb_group, Fragment::is_aabb_parallel, Arc::is_aabb_right_angle_arc
 #[kani::proof]
@@ -381,7 +381,7 @@ fn rounded_complete_at(w: i32, h: i32, x0: i32, y0: i32, max_w: i32, max_h: i32,
     }
 }
 
-//@ harness: o5_3_rounded_complete props=C05 tier=thorough obl=O5.3 timeout=3400 mem=24
+//@ harness: o5_3_rounded_complete props=C05 tier=stretch obl=O5.3 timeout=3400 mem=24
 //@ desc: the 4 sides and 4 quarter arcs (radius 0.5) of three representative closed rounded boxes - 2x2 cells at (0,0), 5x3 at (3,1), 12x6 at (40,20) - sides in the order top,bottom,left,right, arcs TL,TR,BL,BR, two slot layouts (lines first / interleaved), any dashedness of the sides: endorse_rounded_rect returns exactly that rect with rx = 0.5 and endorse_rect returns None (the size/offset-symbolic version did not finish in 40 min and is thorough-tier); powf stubbed by exact square; bounded Vec
 //@ encodes: endorse::endorse_rounded_rect, endorse::is_rounded_rect, endorse::right_angle_arcs, endorse::parallel_aabb_group, Arc::is_aabb_right_angle_arc, Rect::rounded_new
 #[kani::proof]
@@ -400,7 +400,7 @@ fn o5_3_rounded_complete() {
     }
 }
 
-//@ harness: o5_3_rounded_complete_sizes props=C05 tier=thorough obl=O5.3 timeout=3400 mem=24
+//@ harness: o5_3_rounded_complete_sizes props=C05 tier=stretch obl=O5.3 timeout=3400 mem=24
 //@ desc: as o5_3_rounded_complete for every w in 2..8, h in 2..4 at origins <= (1,1) (symbolic)
 //@ encodes: endorse::endorse_rounded_rect, endorse::is_rounded_rect, endorse::right_angle_arcs, endorse::parallel_aabb_group
 #[kani::proof]
@@ -413,7 +413,7 @@ fn o5_3_rounded_complete_sizes() {
     rounded_complete(8, 4, 1, 1, false);
 }
 
-//@ harness: o5_3_rounded_complete_anyorder props=C05 tier=thorough obl=O5.3 timeout=3400 mem=24
+//@ harness: o5_3_rounded_complete_anyorder props=C05 tier=stretch obl=O5.3 timeout=3400 mem=24
 //@ desc: as o5_3_rounded_complete for w in 2..12, h in 2..6, origins <= (3,3), with the sides in any order among the line slots and the arcs in any order among the arc slots
 //@ encodes: endorse::endorse_rounded_rect, endorse::is_rounded_rect, endorse::right_angle_arcs, endorse::parallel_aabb_group
 #[kani::proof]
